@@ -108,14 +108,14 @@ SUITES["struct3zf"] = {
     "cfg": {"N": 3, "T": 3, "dims": [], "scale": [], "use_scale": True, "reg_cust": False, "per_axis_pos": False,
             "name": "struct3zf", "rebuild": {"mode": 4}},
     "kinds": [1, 2, 3, 4, 5, 6], "depth": {"quick": 2, "thorough": 6}, "maxid": 8,
-    "design_depth": {"quick": 2, "thorough": 4},
+    "design_depth": {"quick": 2, "thorough": 4}, "sample": {"thorough": 3000},
 }
 SUITES["struct3zc"] = {
     "tla": SUITES["struct3"]["tla"],
     "cfg": {"N": 3, "T": 3, "dims": [], "scale": [], "use_scale": True, "reg_cust": False, "per_axis_pos": False,
             "name": "struct3zc", "rebuild": {"mode": 3}},
     "kinds": [1, 2, 3, 4, 5, 6], "depth": {"quick": 2, "thorough": 6}, "maxid": 8,
-    "design_depth": {"quick": 2, "thorough": 4},
+    "design_depth": {"quick": 2, "thorough": 4}, "sample": {"thorough": 3000},
 }
 SUITES["seg13z"] = _seg_suite("seg13z", [1, 3], "D_1x3", [1, 1], "S_11", sample={"quick": 400, "thorough": 6000})
 SUITES["seg13z"]["cfg"]["rebuild"] = {"shift": 1, "ecust": True}
